@@ -4415,6 +4415,9 @@ class EntityMeta(type):
 
         locals = locals.copy() if locals is not None else {}
         locals['.0'] = entity
+        # the caches hold the tree built above under this key: it must differ from the key of the bare lambda body,
+        # which filter()/where()/order_by() use for the same lambda
+        code_key = code_key, 'query_from_lambda'
         return Query(code_key, inner_expr, globals, locals, cells)
     def _get_from_identity_map_(entity, pkval, status, for_update=False, undo_funcs=None, obj_to_init=None):
         cache = entity._database_._get_cache()
